@@ -10,6 +10,7 @@ import (
 	"github.com/indexsupply/shovel/dig"
 	"github.com/indexsupply/shovel/eth"
 	"github.com/indexsupply/shovel/jrpc2"
+	"github.com/indexsupply/shovel/shovel/config"
 	"github.com/indexsupply/shovel/shovel/glf"
 	"github.com/indexsupply/shovel/wpg"
 
@@ -75,7 +76,23 @@ func e2eFields(node *simnode.Node, chain *simnode.Chain, mode string, fields []s
 		ev, cols = &transferEvent, transferCols
 	}
 	detail := map[string]any{"mode": mode, "fields": fields}
-	ig, cig, err := buildIG("ig1", "t1", fields, ev, cols, "", nil)
+	// every other field is stored under a column that is NOT named like the field: the planner and the
+	// row builder must go by the field name, the table by the column name
+	ig, cig, err := buildIG("ig1", "t1", fields, ev, cols, "", func(ci *config.Integration) {
+		keep := map[string]bool{"block_num": true, "tx_idx": true, "log_idx": true, "trace_action_idx": true, "ig_name": true, "src_name": true, "abi_idx": true}
+		for i := range ci.Block {
+			f := ci.Block[i].Name
+			if keep[f] || len(f)%2 == 1 {
+				continue
+			}
+			for j := range ci.Table.Columns {
+				if ci.Table.Columns[j].Name == ci.Block[i].Column {
+					ci.Table.Columns[j].Name = "c_" + f
+				}
+			}
+			ci.Block[i].Column = "c_" + f
+		}
+	})
 	if err != nil {
 		return "config-rejected: " + err.Error(), detail
 	}
